@@ -74,6 +74,7 @@ func runC17(c *Ctx) {
 		c.Emit("c17.mat.inv", mF(a), mF(a.Inverse()))
 		p := c.v3()
 		c.Emit("c17.mat.mulpos", mF(a)+" "+vF(p), vF(a.MulPosition(p)))
+		c.Emit("c17.holds.mulpos", mF(a)+" "+vF(p)+" "+vF(a.MulPosition(p)), "true")
 		// well-conditioned matrix for the inverse law: identity + small perturbation, scaled
 		w := mat.Identity()
 		pert := c.mat4()
@@ -248,6 +249,32 @@ func runC17(c *Ctx) {
 			inPlace := append([]vector3.Float64{}, pts...)
 			t.TransformInPlace(inPlace)
 			c.Emit("c17.holds.pointwise", Fs(3)+" "+trsArgs+" "+nS+args+" "+outArr(inPlace), "true")
+			// special TRS values: exactly-identity rotation with a non-unit scale, position only, rotation only,
+			// unit scale — the places where a shortcut would go
+			id := quaternion.Identity()
+			one := vector3.New(1., 1., 1.)
+			zero := vector3.New(0., 0., 0.)
+			for _, sp := range []struct {
+				t       trs.TRS
+				p, s    vector3.Float64
+				r       quaternion.Quaternion
+				comment string
+			}{
+				{trs.Scale(ts), zero, ts, id, "scale-only"},
+				{trs.New(tp, id, ts), tp, ts, id, "identity-rotation"},
+				{trs.Position(tp), tp, one, id, "position-only"},
+				{trs.Rotation(u1), zero, one, u1, "rotation-only"},
+				{trs.New(tp, u1, one), tp, one, u1, "unit-scale"},
+			} {
+				a := vF(sp.p) + " " + qF(sp.r) + " " + vF(sp.s)
+				c.Emit("c17.holds.pointwise", Fs(3)+" "+a+" "+nS+args+" "+out(m.ApplyTRS(sp.t)), "true")
+				c.Emit("c17.holds.pointwise", Fs(3)+" "+a+" "+nS+args+" "+outArr(sp.t.TransformArray(pts)), "true")
+				ip := append([]vector3.Float64{}, pts...)
+				sp.t.TransformInPlace(ip)
+				c.Emit("c17.holds.pointwise", Fs(3)+" "+a+" "+nS+args+" "+outArr(ip), "true")
+				c.Emit("c17.mesh.applytrs", a+args, out(m.ApplyTRS(sp.t)))
+				c.Note("trs." + sp.comment)
+			}
 			c.Emit("c17.trs.array", trsArgs+args, outArr(t.TransformArray(pts)))
 			fp := geometry.NewAABBFromPoints(pts...)
 			c.Emit("c17.aabb.frompoints", strings.TrimSpace(args), bbF(fp))
